@@ -128,7 +128,7 @@ void kll_helper::randomly_halve_up(T* buf, uint32_t start, uint32_t length) {
 // assumes that destination has initialized objects
 // does not destroy the originals after the move
 template <typename T, typename C>
-void kll_helper::merge_sorted_arrays(T* buf, uint32_t start_a, uint32_t len_a, uint32_t start_b, uint32_t len_b, uint32_t start_c) {
+void kll_helper::merge_sorted_arrays(T* buf, uint32_t start_a, uint32_t len_a, uint32_t start_b, uint32_t len_b, uint32_t start_c, const C& comparator) {
   const uint32_t len_c = len_a + len_b;
   const uint32_t lim_a = start_a + len_a;
   const uint32_t lim_b = start_b + len_b;
@@ -144,7 +144,7 @@ void kll_helper::merge_sorted_arrays(T* buf, uint32_t start_a, uint32_t len_a, u
     } else if (b == lim_b) {
       if (a != c) buf[c] = std::move(buf[a]);
       a++;
-    } else if (C()(buf[a], buf[b])) {
+    } else if (comparator(buf[a], buf[b])) {
       if (a != c) buf[c] = std::move(buf[a]);
       a++;
     } else {
@@ -160,7 +160,7 @@ void kll_helper::merge_sorted_arrays(T* buf, uint32_t start_a, uint32_t len_a, u
 // moves objects from buf_a and destroys the originals
 // copies objects from buf_b
 template <typename T, typename C>
-void kll_helper::merge_sorted_arrays(const T* buf_a, uint32_t start_a, uint32_t len_a, const T* buf_b, uint32_t start_b, uint32_t len_b, T* buf_c, uint32_t start_c) {
+void kll_helper::merge_sorted_arrays(const T* buf_a, uint32_t start_a, uint32_t len_a, const T* buf_b, uint32_t start_b, uint32_t len_b, T* buf_c, uint32_t start_c, const C& comparator) {
   const uint32_t len_c = len_a + len_b;
   const uint32_t lim_a = start_a + len_a;
   const uint32_t lim_b = start_b + len_b;
@@ -175,7 +175,7 @@ void kll_helper::merge_sorted_arrays(const T* buf_a, uint32_t start_a, uint32_t 
     } else if (b == lim_b) {
       new (&buf_c[c]) T(std::move(buf_a[a]));
       buf_a[a++].~T();
-    } else if (C()(buf_a[a], buf_b[b])) {
+    } else if (comparator(buf_a[a], buf_b[b])) {
       new (&buf_c[c]) T(std::move(buf_a[a]));
       buf_a[a++].~T();
     } else {
@@ -204,7 +204,7 @@ void kll_helper::merge_sorted_arrays(const T* buf_a, uint32_t start_a, uint32_t 
  */
 template <typename T, typename C>
 kll_helper::compress_result kll_helper::general_compress(uint16_t k, uint8_t m, uint8_t num_levels_in, T* items,
-        uint32_t* in_levels, uint32_t* out_levels, bool is_level_zero_sorted)
+        uint32_t* in_levels, uint32_t* out_levels, bool is_level_zero_sorted, const C& comparator)
 {
   if (num_levels_in == 0) throw std::invalid_argument("num_levels_in == 0"); // things are too weird if zero levels are allowed
   const uint32_t starting_item_count = in_levels[num_levels_in] - in_levels[0];
@@ -253,14 +253,14 @@ kll_helper::compress_result kll_helper::general_compress(uint16_t k, uint8_t m, 
 
       // level zero might not be sorted, so we must sort it if we wish to compact it
       if ((current_level == 0) && !is_level_zero_sorted) {
-        std::sort(items + adj_beg, items + adj_beg + adj_pop, C());
+        std::sort(items + adj_beg, items + adj_beg + adj_pop, comparator);
       }
 
       if (pop_above == 0) { // Level above is empty, so halve up
         randomly_halve_up(items, adj_beg, adj_pop);
       } else { // Level above is nonempty, so halve down, then merge up
         randomly_halve_down(items, adj_beg, adj_pop);
-        merge_sorted_arrays<T, C>(items, adj_beg, half_adj_pop, raw_lim, pop_above, adj_beg + half_adj_pop);
+        merge_sorted_arrays<T, C>(items, adj_beg, half_adj_pop, raw_lim, pop_above, adj_beg + half_adj_pop, comparator);
       }
 
       // track the fact that we just eliminated some data
